@@ -40,6 +40,9 @@ def cases(draw, tier):
     if simp == 'min_point_rdp':
         case['ts'] = draw(st.lists(S.thresholds(c['pts'], 'smape'), min_size=1, max_size=4))
     case['np_int'] = draw(st.booleans())
+    case['int_points'] = draw(st.booleans())
+    if simp == 'min_point_rdp' and draw(st.integers(0, 7)) == 0:
+        case['ts'] = []          # no threshold listed: the fixed-size result for min_points
     return case
 
 
@@ -115,6 +118,10 @@ def has_special(p):
 
 def oracle(case, rec):
     p = lib.pts_of(case)
+    if case.get('int_points') and np.all(p == np.floor(p)) and float(np.max(np.abs(p))) < 2 ** 30:
+        p = p.astype(np.int64)           # an integer-typed curve is the same curve
+        p.setflags(write=False)
+        rec.tag('points:int64')
     n = len(p)
     rec.tag('family:' + case['family'], 'simplifier:' + case['simplifier'])
     if 'metric' in case:
